@@ -41,8 +41,10 @@
 package decoder
 
 import (
+	"github.com/cloudwego/hertz/internal/bytesconv"
 	"github.com/cloudwego/hertz/pkg/protocol"
 	"github.com/cloudwego/hertz/pkg/route/param"
+	"strings"
 )
 
 type getter func(req *protocol.Request, params param.Params, key string, defaultValue ...string) (ret string, exist bool)
@@ -112,9 +114,21 @@ func cookie(req *protocol.Request, params param.Params, key string, defaultValue
 }
 
 func header(req *protocol.Request, params param.Params, key string, defaultValue ...string) (ret string, exist bool) {
-	if val := req.Header.Peek(key); val != nil {
-		ret = string(val)
-		return ret, true
+	if val := req.Header.Peek(key); len(val) > 0 {
+		return string(val), true
+	} else if val != nil {
+		// An empty value. For the headers kept in fields of their own (User-Agent,
+		// Content-Type, Host...) Peek returns the field, which after a reset is empty
+		// but not nil although the header is absent: ask the header itself.
+		present := false
+		req.Header.VisitAll(func(k, _ []byte) {
+			if strings.EqualFold(bytesconv.B2s(k), key) {
+				present = true
+			}
+		})
+		if present {
+			return "", true
+		}
 	}
 
 	if len(ret) == 0 && len(defaultValue) != 0 {
